@@ -89,6 +89,8 @@ class Calibration(TorchFunctionMode):
         if streamline:
             self.modules_qactivations = {}
         self.debug = debug
+        # A context can be entered several times (nested): keep a stack of hook handles
+        self.handles = []
 
     def __torch_function__(self, func, types, args=(), kwargs=None):
         kwargs = kwargs if kwargs is not None else {}
@@ -111,11 +113,15 @@ class Calibration(TorchFunctionMode):
         super().__enter__()
         self.pre_handle = register_module_forward_pre_hook(self.calibrate_input)
         self.post_handle = register_module_forward_hook(self.calibrate_output)
+        self.handles.append((self.pre_handle, self.post_handle))
 
     def __exit__(self, exc_type, exc_val, exc_tb):
-        super().__exit__(exc_type, exc_val, exc_tb)
-        self.pre_handle.remove()
-        self.post_handle.remove()
+        try:
+            super().__exit__(exc_type, exc_val, exc_tb)
+        finally:
+            pre_handle, post_handle = self.handles.pop()
+            pre_handle.remove()
+            post_handle.remove()
 
     def calibrate_input(self, module: torch.nn.Module, input):
         if isinstance(module, QModuleMixin) and module.activation_qtype is not None:
